@@ -74,14 +74,17 @@ def observe(region, lons, lats, numpy):
     lons = numpy.asarray(lons, dtype=float)
     lats = numpy.asarray(lats, dtype=float)
     # (plain python lists every other time: the queries accept any array-like)
-    masked = guarded(region.get_masked, lons, lats) if n % 2 else guarded(region.get_masked, lons.tolist(), lats.tolist())
+    # (... tuples every fourth time)
+    masked = guarded(region.get_masked, lons, lats) if n % 2 else (
+        guarded(region.get_masked, lons.tolist(), lats.tolist()) if n % 4 else guarded(region.get_masked, tuple(lons.tolist()), tuple(lats.tolist())))
     if isinstance(masked, Raised):
         return masked
     masked = numpy.asarray(masked, dtype=bool)
     idx = numpy.full(n, -1, dtype=numpy.int64)
     inside = numpy.where(~masked)[0]
-    r = (guarded(region.get_index_of, lons[inside], lats[inside]) if n % 3 else
-         guarded(region.get_index_of, lons[inside].tolist(), lats[inside].tolist())) if inside.size else numpy.array([], dtype=int)
+    r = (guarded(region.get_index_of, lons[inside], lats[inside]) if n % 3 else (
+         guarded(region.get_index_of, lons[inside].tolist(), lats[inside].tolist()) if n % 2 else
+         guarded(region.get_index_of, tuple(lons[inside].tolist()), tuple(lats[inside].tolist())))) if inside.size else numpy.array([], dtype=int)
     if isinstance(r, Raised):
         # some point the mask calls inside is rejected by the index lookup: fall back to per-point calls
         for i in inside:
